@@ -8,6 +8,14 @@ namespace Compio.KeyLife
 
 open Compio.PollQueues
 
+theorem modAt_get {f : Op → Op} {l : List Op} {id : Nat} {o : Op} (ho : l[id]? = some o) :
+    (modAt f l id)[id]? = some (f o) := by
+  simp only [getElem?_modAt_self, ho, Option.map_some]
+
+theorem map_get {f : Op → Op} {l : List Op} {id : Nat} {o : Op} (ho : l[id]? = some o) :
+    (l.map f)[id]? = some (f o) := by
+  simp only [List.getElem?_map, ho, Option.map_some]
+
 /-! ### only the addressed op is touched -/
 
 theorem driverCancel_frame (s : State) (id : Nat) (o : Op) {j : Nat} (hj : j ≠ id) :
@@ -49,11 +57,14 @@ theorem driverCancel_op (s : State) (id : Nat) (o : Op) :
   unfold driverCancel iourCancel pollCancel
   split
   · split
-    · exact ⟨_, fun _ => ⟨rfl, rfl, rfl, rfl⟩, getElem?_modAt_self _ _ _⟩
-    · exact ⟨_, fun _ => ⟨rfl, rfl, rfl, rfl⟩, getElem?_modAt_self _ _ _⟩
+    · refine ⟨_, ?_, getElem?_modAt_self _ _ _⟩
+      exact fun _ => ⟨rfl, rfl, rfl, rfl⟩
+    · refine ⟨_, ?_, getElem?_modAt_self _ _ _⟩
+      exact fun _ => ⟨rfl, rfl, rfl, rfl⟩
   · split
-    · exact ⟨id, fun _ => ⟨rfl, rfl, rfl, rfl⟩, by simp⟩
-    · exact ⟨_, fun _ => ⟨rfl, rfl, rfl, rfl⟩, getElem?_modAt_self _ _ _⟩
+    · exact ⟨fun x => x, fun _ => ⟨rfl, rfl, rfl, rfl⟩, by simp⟩
+    · refine ⟨_, ?_, getElem?_modAt_self _ _ _⟩
+      exact fun _ => ⟨rfl, rfl, rfl, rfl⟩
 
 theorem cancelIssue_cancelled (s : State) (id : Nat) (o : Op) {x : Op} (hx : s.ops[id]? = some x) :
     ∃ x', (cancelIssue s id o).ops[id]? = some x' ∧ x'.cancelled = true ∧ x'.result = x.result := by
@@ -76,5 +87,82 @@ theorem cancelTok_cancelled (s : State) (id : Nat) {o : Op} (ho : s.ops[id]? = s
     simp only [getElem?_modAt_self, ho, Option.map_some]
   · obtain ⟨x', h1, h2, _⟩ := cancelIssue_cancelled _ id _ h0
     exact ⟨x', h1, h2⟩
+
+/-! ### single events seen from one op -/
+
+/-- one `cancel_token` touches only its own operation, and a live one ends up flagged -/
+theorem tokenCancel_effect {c : Cfg} {s s' : State} {id : Nat} (h : step c s (.tokenCancel id) = some s') :
+    (∀ j, j ≠ id → s'.ops[j]? = s.ops[j]?) ∧
+      (∀ o, s.ops[id]? = some o → 0 < o.rc → ∃ x, s'.ops[id]? = some x ∧ x.cancelled = true) := by
+  simp only [step] at h
+  split at h
+  · rename_i o ho
+    split at h
+    · split at h
+      · rename_i hrc
+        obtain rfl := Option.some.inj h
+        exact ⟨fun _ _ => rfl, fun o' ho' hp => by
+          rw [ho] at ho'; obtain rfl := Option.some.inj ho'; omega⟩
+      · obtain rfl := Option.some.inj h
+        exact ⟨fun j hj => cancelTok_frame s id o hj, fun o' ho' _ => by
+          rw [ho] at ho'; obtain rfl := Option.some.inj ho'; exact cancelTok_cancelled s id ho⟩
+    · cases h
+  · cases h
+
+theorem tokenDrop_effect {c : Cfg} {s s' : State} {id : Nat} (h : step c s (.tokenDrop id) = some s') :
+    (∀ j, j ≠ id → s'.ops[j]? = s.ops[j]?) ∧
+      (∀ o, s.ops[id]? = some o → ∃ x, s'.ops[id]? = some x ∧ x.cancelled = o.cancelled ∧ x.rc = o.rc) := by
+  simp only [step] at h
+  split at h
+  · rename_i o ho
+    split at h
+    · obtain rfl := Option.some.inj h
+      exact ⟨fun j hj => getElem?_modAt_ne _ _ (Ne.symm hj), fun o' ho' => ⟨_, modAt_get ho', rfl, rfl⟩⟩
+    · cases h
+  · cases h
+
+theorem submit_op {c : Cfg} {s s' : State} (h : step c s .submit = some s') {id : Nat} {x : Op}
+    (hx : s.ops[id]? = some x) : s'.ops[id]? = some x.submit := by
+  simp only [step] at h
+  split at h
+  · obtain rfl := Option.some.inj h; exact map_get hx
+  · cases h
+
+theorem kPost_final_op {c : Cfg} {s s' : State} {id : Nat} {r : Res} (h : step c s (.kPost id false r) = some s')
+    {x : Op} (hx : s.ops[id]? = some x) :
+    s'.ops[id]? = some { x with pendFinal := some r, kstat := .done, produced := x.produced ++ [r] } := by
+  simp only [step, hx] at h
+  split at h
+  · simp only [Bool.false_eq_true, if_false] at h
+    obtain rfl := Option.some.inj h; exact modAt_get hx
+  · cases h
+
+theorem pollEntries_op {c : Cfg} {s s' : State} (h : step c s .pollEntries = some s') {id : Nat} {x : Op}
+    (hx : s.ops[id]? = some x) : s'.ops[id]? = some x.drainCq := by
+  simp only [step] at h
+  split at h
+  · obtain rfl := Option.some.inj h; exact map_get hx
+  · cases h
+
+
+theorem map_fix {f : Op → Op} : ∀ l : List Op, (∀ o, o ∈ l → f o = o) → l.map f = l := by
+  intro l
+  induction l with
+  | nil => intro _; rfl
+  | cons x xs ih =>
+    intro h
+    simp only [List.map_cons, h x List.mem_cons_self, ih (fun o ho => h o (List.mem_cons_of_mem _ ho))]
+
+theorem run_append (c : Cfg) : ∀ (a b : List Event) (s1 s2 : State), run c s1 a = some s2 →
+    run c s1 (a ++ b) = run c s2 b := by
+  intro a
+  induction a with
+  | nil => intro b s1 s2 h; simp [run] at h; subst h; rfl
+  | cons e es ihh =>
+    intro b s1 s2 h
+    simp only [run, List.cons_append] at h ⊢
+    cases hsx : step c s1 e with
+    | none => rw [hsx] at h; cases h
+    | some sx => rw [hsx] at h; exact ihh b sx s2 h
 
 end Compio.KeyLife
